@@ -332,3 +332,41 @@ func c09IdleListNotAliased(c *Ctx) {
 		}
 	}
 }
+
+// c09SlotClearedBeforeReceive (R7, HTTP/1): the single stream slot of a ping-pong connection is released before the
+// response is delivered. Delivering the response destroys the stream and puts the connection back into the pool
+// (clientStreamReceiverWrapper.OnReceive -> DestroyStream -> OnDestroyStream -> idle list), so the connection can be
+// leased again before handleResponse returns. Clause: in clientStream.handleResponse every receiver.OnReceive call is
+// dominated by a store of nil to clientStreamConnection.stream, and no store to that slot - in the function, in a
+// deferred call or in a closure - can execute after the delivery: such a store would wipe the slot the next lease has
+// just filled, and the next response would find no stream to go to.
+func c09SlotClearedBeforeReceive(c *Ctx) {
+	fn := c.M("pkg/stream/http", "clientStream", "handleResponse")
+	if fn == nil {
+		c.Unresolved("C09.R7", "http clientStream.handleResponse")
+		return
+	}
+	fk := funcKey(fn)
+	recv := callsIn(fn, false, func(cc *ssa.CallCommon) bool { return cc.IsInvoke() && cc.Method.Name() == "OnReceive" })
+	if len(recv) == 0 {
+		c.Unresolved("C09.R7", "receiver.OnReceive call in http clientStream.handleResponse")
+		return
+	}
+	direct := storesToField(fn, "clientStreamConnection", "stream", false)
+	all := storesToField(fn, "clientStreamConnection", "stream", true)
+	for i, cs := range recv {
+		cleared := false
+		for _, st := range direct {
+			if isNilConst(st.Val) && instrDominates(st, cs.Instr) {
+				cleared = true
+			}
+		}
+		late := len(all) != len(direct) // a store inside a deferred function or closure runs at an unknown, later time
+		for _, st := range direct {
+			if existsPath(fn, cs.Instr, func(in ssa.Instruction) bool { return in == ssa.Instruction(st) }, nil) != nil {
+				late = true
+			}
+		}
+		c.Check("C09.R7", fmt.Sprintf("%s:slot-cleared-before-receive#%d", fk, i+1), cs.Instr.Pos(), cleared && !late, "connection.stream = nil dominates the delivery and nothing writes the slot afterwards", "the HTTP/1 connection's stream slot is not released before the response is delivered (or is written after it): delivery hands the connection back to the pool, the next lease fills the slot, and the late write wipes it - the next request's response has no stream to go to and the connection never returns to the pool")
+	}
+}
